@@ -9,3 +9,66 @@ package colors
 //@   assigns nothing
 //@   ensures NOCOLOR ==> r == s
 //@   ensures !NOCOLOR ==> r == color + s + "\x1b[0m"
+//@
+//@ func Fprint(w, color, s)
+//@   mode str
+//@   assigns wbuf[w]
+//@   ensures NOCOLOR ==> wbuf[w] == old(wbuf[w]) + s
+//@   ensures !NOCOLOR ==> wbuf[w] == old(wbuf[w]) + color + s + "\x1b[0m"
+//@
+//@ func FprintEqual(w, s)
+//@   mode str
+//@   assigns wbuf[w]
+//@   ensures NOCOLOR ==> wbuf[w] == old(wbuf[w]) + "  " + s
+//@   ensures !NOCOLOR ==> wbuf[w] == old(wbuf[w]) + "  " + "\x1b[2m" + s + "\x1b[0m"
+//@
+//@ func hasNewlineSuffix(s) returns (r)
+//@   mode str
+//@   pure
+//@   assigns nothing
+//@   ensures r == suffixof("\n", s)
+//@
+//@ func trimSuffix(s) returns (r)
+//@   mode str
+//@   pure
+//@   requires len(s) >= 1
+//@   assigns nothing
+//@   ensures r == substr(s, 0, len(s) - 1)
+//@
+//@ func FprintDelete(w, s)
+//@   mode str
+//@   assigns wbuf[w]
+//@   ensures NOCOLOR ==> wbuf[w] == old(wbuf[w]) + "- " + s
+//@   ensures !NOCOLOR ==> len(wbuf[w]) > len(old(wbuf[w])) + len(s)
+//@   ensures prefixof(old(wbuf[w]), wbuf[w])
+//@
+//@ func FprintInsert(w, s)
+//@   mode str
+//@   assigns wbuf[w]
+//@   ensures NOCOLOR ==> wbuf[w] == old(wbuf[w]) + "+ " + s
+//@   ensures !NOCOLOR ==> len(wbuf[w]) > len(old(wbuf[w])) + len(s)
+//@   ensures prefixof(old(wbuf[w]), wbuf[w])
+//@
+//@ func FprintDeleteBold(w, s)
+//@   mode str
+//@   assigns wbuf[w]
+//@   ensures NOCOLOR ==> wbuf[w] == old(wbuf[w]) + s
+//@   ensures !NOCOLOR ==> wbuf[w] == old(wbuf[w]) + "\x1b[48;5;127m" + "\x1b[38;5;255m" + s + "\x1b[0m"
+//@
+//@ func FprintInsertBold(w, s)
+//@   mode str
+//@   assigns wbuf[w]
+//@   ensures NOCOLOR ==> wbuf[w] == old(wbuf[w]) + s
+//@   ensures !NOCOLOR ==> wbuf[w] == old(wbuf[w]) + "\x1b[48;5;23m" + "\x1b[38;5;255m" + s + "\x1b[0m"
+//@
+//@ func FprintRange(w, r1, r2)
+//@   mode str
+//@   assigns wbuf[w]
+//@   ensures NOCOLOR ==> wbuf[w] == old(wbuf[w]) + "@@ -" + r1 + " +" + r2 + " @@\n\n"
+//@   ensures prefixof(old(wbuf[w]), wbuf[w]) && len(wbuf[w]) > len(old(wbuf[w]))
+//@
+//@ func FprintBg(w, bgColor, color, s)
+//@   mode str
+//@   assigns wbuf[w]
+//@   ensures NOCOLOR ==> wbuf[w] == old(wbuf[w]) + s
+//@   ensures prefixof(old(wbuf[w]), wbuf[w]) && len(wbuf[w]) >= len(old(wbuf[w])) + len(s)
